@@ -19,7 +19,8 @@ RULE_TEXT = ("C14-W compile-fail witnesses: colliding declaration pairs produced
              "is_query; insert hands every expanded path to insert_at and returns its result; interface consumes the "
              "result by unwrap/expect/?/match; children are keyed by the whole part."
              " C14-T/C14-D: on every witness interface each declared spelling reaches its own handler and the dispatcher has one arm with a distinct key per declaration (rules C01-T/D) - no declaration is shadowed by a colliding id."
-             " C14-C01M: the run-time lookup matches a mnemonic against a key by eq_ignore_ascii_case and nothing looser (rule C01-M), the relation the compile-time collision test uses.")
+             " C14-C01M: the run-time lookup matches a mnemonic against a key by eq_ignore_ascii_case and nothing looser (rule C01-M), the relation the compile-time collision test uses."
+             " C14-W controls also cover a declaration whose own spellings repeat (an optional mnemonic twice, with distinct short/long forms, with another optional level in between): it must build.")
 
 INSERT_AT = "microscpi_macros::tree::Tree::insert_at"
 INSERT = "microscpi_macros::tree::Tree::insert"
@@ -139,9 +140,13 @@ def run(ck):
         specs.append(sp)
         expect[sp["mod"]] = ("build", None, decls, flags)
     # a single declaration whose own expansions overlap: no two handlers collide -> must build
-    selfdup = mk("ctl_self_overlap", ["[A]:[A]:X"], ())
-    specs.append(selfdup)
-    expect[selfdup["mod"]] = ("build", None, ["[A]:[A]:X"], ())
+    # (also with distinct short and long forms, and with another optional level in between, where the repeated spellings
+    # are not neighbours in the order the macro generates them)
+    for nm, dd in (("ctl_self_overlap", ["[A]:[A]:X"]), ("ctl_self_overlap_forms", ["[ROUTe]:[ROUTe]:CLOSe", "OTHer?"]),
+                   ("ctl_self_overlap_apart", ["[SENSe]:[VOLTage]:[SENSe]:RANGe?", "[SENSe]:[VOLTage]:[SENSe]:RANGe"])):
+        selfdup = mk(nm, dd, ())
+        specs.append(selfdup)
+        expect[selfdup["mod"]] = ("build", None, dd, ())
 
     rc, per, other = witness.compile_cases(ck, specs)
     if other:
